@@ -26,10 +26,13 @@ class CounterGen(BoboGenEventID):
 class Recorder(BoboDeciderSubscriber):
     def __init__(self):
         self.notifs = []
+        self.published = []
 
     def on_decider_update(self, completed, halted, updated, local):
         # snapshot the lists: the decider may edit them later
         self.notifs.append((list(completed), list(halted), list(updated), local))
+        # text of every published record at publication time (C12: published snapshots never change)
+        self.published.append([(r, r.to_json_str()) for r in list(completed) + list(halted) + list(updated)])
 
 
 class RealDecider:
